@@ -11,6 +11,7 @@ statements over a three-letter alphabet.  Three independent things are computed 
 `intended` and `symtable_oracle` must agree (else harness error); lian is compared with the symtable oracle.
 """
 import ast
+import collections
 import symtable
 
 ALPHABET = ["x", "y", "z"]
@@ -465,7 +466,13 @@ class PyOracle:
                 self._visit_body(h.body, ps)
             self._visit_body(st.orelse, ps)
             self._visit_body(st.finalbody, ps)
-        elif isinstance(st, (ast.Assign, ast.AugAssign, ast.AnnAssign, ast.Expr, ast.Return, ast.Delete,
+        elif isinstance(st, ast.AugAssign):
+            if isinstance(st.target, ast.Name):
+                self.occs.append((st.target.lineno, st.target.id, "usedef", ps, "aug"))
+            else:
+                self._names_in_expr(st.target, ps)
+            self._names_in_expr(st.value, ps)
+        elif isinstance(st, (ast.Assign, ast.AnnAssign, ast.Expr, ast.Return, ast.Delete,
                              ast.Raise, ast.Assert)):
             for f in ast.iter_child_nodes(st):
                 self._names_in_expr(f, ps)
@@ -519,21 +526,40 @@ class PyOracle:
     def module_binding(self, name):
         """'module' if the module body binds the name; 'via-global' if only a function does through
         `global name`; None otherwise (builtin / undefined)."""
-        try:
-            sym = self.top.lookup(name)
-            if sym.is_assigned() or sym.is_imported() or sym.is_namespace():
-                return "module"
-        except KeyError:
-            pass
+        forms = self.binding_forms(self.module, name)
+        if forms - {"aug"}:
+            return "module" if any(ps.kind == "module" for (ln, n, role, ps, extra) in self.occs
+                                   if n == name and role in ("def",)) else "via-global"
+        if forms:
+            return "aug-only"
+        return None
+
+    def binding_forms(self, owner_ps, name):
+        """set of binding forms of the variable (owner scope, name): assign / aug / def / class / param /
+        import / except / for-or-other"""
+        out = set()
+        for (ln, n, role, ps, extra) in self.occs:
+            if n != name or role not in ("def", "param", "usedef"):
+                continue
+            o, how = (ps, "param") if role == "param" else self.owner(ps, n)
+            if o is not owner_ps:
+                continue
+            if role == "param":
+                out.add("param")
+            elif role == "usedef":
+                out.add("aug")
+            elif isinstance(extra, tuple):
+                out.add("import")
+            elif extra in ("def", "class", "except"):
+                out.add(extra)
+            else:
+                out.add("assign")
+        return out
+
+    def scope_by_ident(self, kind, line):
         for ps in self.scopes:
-            if ps.kind == "module":
-                continue
-            try:
-                sym = ps.table.lookup(name)
-            except KeyError:
-                continue
-            if sym.is_declared_global() and (sym.is_assigned() or sym.is_imported() or sym.is_namespace()):
-                return "via-global"
+            if ps.kind == kind and ps.line == line:
+                return ps
         return None
 
     def binding_lines(self, owner_ps, name):
@@ -582,7 +608,7 @@ def use_kind(ps):
 
 EXPECTED_KIND = {"module": "module", "local": "local", "param": "param", "class-local": "class-local",
                  "free": "enclosing-function", "nonlocal": "enclosing-function-nonlocal", "implicit": "module",
-                 "global-stmt": "module-global-stmt", "global-inherited": "module-global-inherited"}
+                 "global-stmt": "module-via-global-stmt", "global-inherited": "module-via-inherited-global-stmt"}
 
 
 def decl_name(d):
@@ -622,7 +648,7 @@ def compare_unit(unit, oracle, bind, lang="python", imports=None, col=None):
     the name is not import-bound.
     -> (discrepancies [(sig, what)], stats dict)"""
     out = []
-    stats = {"occurrences": 0, "compared": 0, "unobserved": 0, "symbols": 0}
+    stats = collections.Counter()
     for r in oracle.resolved():
         role = r["role"]
         if role == "param" or r["extra"] in ("def", "class", "except") or isinstance(r["extra"], tuple):
@@ -637,6 +663,7 @@ def compare_unit(unit, oracle, bind, lang="python", imports=None, col=None):
             syms = bind.at_line(unit, line, name)
         if not syms:
             stats["unobserved"] += 1
+            stats["unobserved:%s:%s" % (ps.kind, role)] += 1
             continue
         stats["compared"] += 1
         ukind = use_kind(ps)
@@ -653,15 +680,16 @@ def compare_unit(unit, oracle, bind, lang="python", imports=None, col=None):
                     out.append(((lang, ukind, _imp_chosen(d, unit), ekind),
                                 "%s:%d `%s` (%s) bound to %s, expected %s" % (unit, line, name, ukind, _short(d), edesc)))
                 continue
+            forms = oracle.binding_forms(owner, name)
             if owner.kind == "module":
                 mb = oracle.module_binding(name)
-                if mb == "module":
+                if mb in ("module", "aug-only"):
                     ekind = EXPECTED_KIND[how]
                     ok = (d["kind"] == "decl" and d["unit"] == unit and d["owner"][0] == "unit"
                           and decl_name(d) == name)
                     edesc = "the module-level declaration of %s" % name
                 else:
-                    ekind = "unresolved" if how in ("module", "implicit") else "unresolved-" + EXPECTED_KIND[how]
+                    ekind = "unresolved" if how in ("module", "implicit") else "unresolved-" + EXPECTED_KIND[how][7:]
                     ok = d["kind"] == "unresolved"
                     edesc = "unresolved (no module-level declaration of %s%s)" % (
                         name, "; bound only through a global statement" if mb else "")
@@ -670,10 +698,25 @@ def compare_unit(unit, oracle, bind, lang="python", imports=None, col=None):
                 ok = (d["kind"] == "decl" and d["unit"] == unit and (d["owner"][0], d["owner"][1]) ==
                       (owner.kind, owner.line) and decl_name(d) == name)
                 edesc = "%s of %s %s (line %d)" % (how, owner.kind, owner.name, owner.line)
+            if forms == {"aug"}:
+                ekind = "augassign-only-binding"
             if not ok:
                 ck = chosen_kind(d, unit, ps)
-                if d["kind"] == "decl" and decl_name(d) != name:
-                    ck = "other-name"
+                if d["kind"] == "decl" and d["unit"] == unit:
+                    if decl_name(d) != name:
+                        ck = "other-name"
+                    elif d["owner"][0] == "func":
+                        # a def/class/import row of a name that its function declares global / nonlocal
+                        dps = oracle.scope_by_ident("func", d["owner"][1])
+                        if dps is not None:
+                            try:
+                                sym = dps.table.lookup(name)
+                                if sym.is_declared_global():
+                                    ck = "local-row-under-global-decl"
+                                elif sym.is_nonlocal():
+                                    ck = "local-row-under-nonlocal-decl"
+                            except KeyError:
+                                pass
                 out.append(((lang, ukind, ck, ekind),
                             "%s:%d `%s` (%s) bound to %s, expected %s" % (unit, line, name, ukind, _short(d), edesc)))
     return out, stats
